@@ -671,8 +671,40 @@ def generate(rng, tier, outdir):
         dict(route="pp", nq=2, labels=[tagged(0), tagged(0)], mut=[], obs=["ZZ"], N=[1, 1], seed=3,
              items=[["g", "h", [], [0]], ["g", "cx", [], [0, 1]]]),
     ]
+    # three partitions, the first one in dict order holds no half of cut 0, the cuts have different bases (rzz / cx):
+    # `bases` must be ordered by cut id, not by first encounter
+    for N in ("inf", [10, 1], [5, 2]):
+        fixed.append(dict(route="pp", nq=3, labels=[tagged("A"), tagged("B"), tagged("C")], mut=[], obs=["ZZZ", "XIZ"], N=N, seed=11,
+                          items=[["g", "h", [], [0]], ["g", "cx", [], [1, 2]], ["g", "rzz", [fr(Fraction(3, 4))], [0, 1]],
+                                 ["g", "ry", [fr(Fraction(1, 4))], [2]]]))
     for d in fixed:
         emit(w, d, "valid")
+
+    # ---- small budgets on a non-uniform basis (rzz): EXACT and SAMPLED entries mixed, a sampled joint map can outweigh an
+    #      exact one, so dictionary order (type, then weight) and coefficient order (weight only) differ ----
+    n_mixed = 30 if tier == "quick" else 300
+    for i in range(n_mixed):
+        th = [Fraction(3, 4), Fraction(-3, 2), Fraction(1), Fraction(5, 4), Fraction(1, 2), Fraction(5, 8)][int(rng.integers(0, 6))]
+        two = rng.integers(0, 3) == 0
+        items = [["g", "h", [], [0]], ["g", "rzz", [fr(th)], [0, 1]], ["g", "rx", [fr(Fraction(1, 2))], [1]]]
+        labels = [tagged("A"), tagged("B")]
+        nq = 2
+        obs = [str(rng.choice(["ZZ", "XZ", "ZI", "YY"]))]
+        if two:
+            nq = 3
+            items += [["g", "cx", [], [1, 2]]]
+            labels = [tagged("A"), tagged("B"), tagged("A")]
+            obs = ["I" + obs[0]]
+        N = [[3, 1], [5, 1], [4, 1], [5, 2], [7, 2], [6, 1], [6, 1]][int(rng.integers(0, 7))]
+        d = dict(route="pp", nq=nq, labels=labels, mut=[], obs=obs, N=N, seed=int(rng.integers(0, 2 ** 31 - 1)), items=items)
+        jc, info = emit(w, d, "valid")
+        ws = jc["weights"]
+        kinds = {x[2] for x in ws}
+        w.count("mixed.kinds", "+".join(sorted(kinds)))
+        if any(a[2] == "S'" and b[2] == "E" and a[1] > b[1] for a in ws for b in ws):
+            w.count("mixed.feature", "sampled_outweighs_exact")
+        if len({x[1] for x in ws}) < len(ws):
+            w.count("mixed.feature", "tied_weights")
 
     # ---- mostly-valid stream ----
     made = 0
@@ -791,7 +823,8 @@ def generate(rng, tier, outdir):
              "TwoQubitQPDGates inside a partition (both halves in one partition), Move-based wire cuts via cut_wires on CutWire markers "
              "(+ expand_observables), unseparated circuits via partition_circuit_qubits / cut_gates / cut_wires; Pauli lists with "
              "duplicates, identity restricted to a whole partition, several commuting groups; budgets {1,2,2.5,4,10,64,100,5000,inf} "
-             "under random numpy seeds, the weights dictionary re-read with the same seed; sometimes pre-existing classical bits, "
+             "under random numpy seeds, the weights dictionary re-read with the same seed; a dedicated stream of rzz cuts under small "
+             "budgets {2.5,3,3.5,4,5,6} (EXACT and SAMPLED entries mixed, sampled entries outweighing exact ones, ties); sometimes pre-existing classical bits, "
              "observables dict in another order / missing a partition, trailing resets. Malformed stream: type mismatches both ways, "
              "num_samples in {0, 0.5, 0.999, -1, nan, -inf}, missing / non-numeric label suffix, shifted cut ids, foreign observable "
              "label, phases, wrong observable width, one-qubit placeholders in an unseparated circuit, two-qubit placeholder in a "
